@@ -496,7 +496,8 @@ def _sort(case, ctx, pdf, ddf):
         feat = "sort_values:first-key=%s%s%s" % (k0, "&na&na_position=last" if na0 else "", "" if asc0 else "&descending")
     feat2 = "sort_values:multi-column%s%s" % ("&na-in-later-keys&na_position=%s" % case["na"] if nakeys else "",
                                               "&mixed-ascending" if isinstance(asc, list) and len(set(asc)) > 1 else "")
-    efeat = "sort_values:first-key=%s%s%s" % (k0, "&na" if na0 else "", allna)
+    # (a nullable boolean key fails on any NA, an all-NA partition is not needed: one label)
+    efeat = "sort_values:first-key=%s%s%s" % (k0, "&na" if na0 else "", "" if k0 == "boolean" else allna)
     refine = None
     desc = dict(case, input_npartitions=ddf.npartitions)
     byarg = by[0] if case.get("byform") == "str" else by
@@ -591,7 +592,8 @@ def _set_index(case, ctx, pdf, ddf):
         feat = efeat = "set_index:%s-column" % ck          # one mechanism whatever the mode
     else:
         feat = "set_index:%s:%s-column%s%s%s" % (mode, ck, "&na-values" if hasna else "", allna, pres)
-        efeat = "set_index:%s%s" % (mode, "&%s-column&na-values%s" % (ck, allna) if hasna else
+        emode = "quantile-divisions" if hasna and mode in ("plain", "npartitions") else mode
+        efeat = "set_index:%s%s" % (emode, "&%s-column&na-values%s" % (ck, allna) if hasna else
                                     "&category-column" if ck.startswith("category") and mode == "sorted" else
                                     "&bool-column" if ck == "bool" and mode == "sorted" else "")
     refine = None
